@@ -143,6 +143,9 @@ type zzUR struct {
 	hasST   bool
 	hasET   bool
 	vol     []byte
+	st, et  uint32
+	dur     uint32
+	nkids   int
 }
 
 func (u zzUR) termr() bool { return u.trig[1]&0x08 != 0 }
@@ -202,11 +205,21 @@ func zzDecodeUR(g []byte) zzUR {
 			u.hasVol, u.vol = true, v
 		case 67:
 			u.hasDur = true
+			if l == 4 {
+				u.dur = zzBE32(v)
+			}
 		case 75:
 			u.hasST = true
+			if l == 4 {
+				u.st = zzBE32(v)
+			}
 		case 76:
 			u.hasET = true
+			if l == 4 {
+				u.et = zzBE32(v)
+			}
 		}
+		u.nkids++
 		p += 4 + l
 	}
 	return u
